@@ -9,4 +9,4 @@ CONSTANTS
   Small = FALSE
   Avoid = FALSE
   SimK = 1
-  Acts = {"oset", "rebind", "nest"}
+  Acts = {"oset", "rebind", "nest", "ctor", "batch"}
